@@ -174,6 +174,47 @@ pub fn gen_tree(rng: &mut Rng, depth: u32, wide: bool) -> Tree {
     t
 }
 
+/// The tree a real recorder writes: `startAt`, `lastFrame`, `players.<port>.names.{netplay,code}`,
+/// `players.<port>.characters.<id>`, `playedOn` (sometimes `consoleNick`). The names it carries are
+/// the recorder's own copy and need not agree with anything in Game Start.
+pub fn gen_recorder_tree(rng: &mut Rng, ports: &[PortSpec], last_frame: i32) -> Tree {
+    let mut players: Tree = vec![];
+    for p in ports {
+        if rng.chance(1, 8) {
+            continue;
+        }
+        let mut pl: Tree = vec![];
+        if rng.chance(5, 6) {
+            let name = if rng.chance(1, 6) { String::new() } else { gen_string(rng, 30) };
+            let code = if rng.chance(1, 6) { String::new() } else { format!("{}#{}", rng.pick(&["ABCD", "XY", "ＡＢ", "q"]), rng.below(1000)) };
+            let mut names: Tree = vec![("netplay".to_string(), Node::Str(name)), ("code".to_string(), Node::Str(code))];
+            if rng.chance(1, 5) {
+                names.swap(0, 1);
+            }
+            pl.push(("names".to_string(), Node::Map(names)));
+        }
+        let mut chars: Tree = vec![];
+        for _ in 0..1 + rng.below(2) {
+            let k = format!("{}", rng.below(33));
+            if !chars.iter().any(|(kk, _)| *kk == k) {
+                chars.push((k, Node::Int(rng.below(30000) as i32)));
+            }
+        }
+        pl.push(("characters".to_string(), Node::Map(chars)));
+        players.push((format!("{}", p.port), Node::Map(pl)));
+    }
+    let mut t: Tree = vec![
+        ("startAt".to_string(), Node::Str(format!("20{:02}-{:02}-{:02}T{:02}:{:02}:{:02}Z", rng.below(40), 1 + rng.below(12), 1 + rng.below(28), rng.below(24), rng.below(60), rng.below(60)))),
+        ("lastFrame".to_string(), Node::Int(last_frame)),
+        ("players".to_string(), Node::Map(players)),
+        ("playedOn".to_string(), Node::Str((*rng.pick(&["dolphin", "nintendont", "network", "console"])).to_string())),
+    ];
+    if rng.chance(1, 3) {
+        t.push(("consoleNick".to_string(), Node::Str(gen_string(rng, 30))));
+    }
+    t
+}
+
 /// Many maps in total (more than any nesting limit) while staying shallow.
 pub fn gen_many_maps(rng: &mut Rng, total: usize) -> Tree {
     let mut t: Tree = vec![];
@@ -403,6 +444,10 @@ pub fn gen_recorder(rng: &mut Rng, cfg: &GenCfg) -> RecorderSpec {
         6 => {
             let d = 1 + rng.below(60) as u32;
             Some(gen_chain(rng, d))
+        }
+        7..=8 => {
+            let last = frames.last().map_or(-123, |f: &FrameSpec| f.id);
+            Some(gen_recorder_tree(rng, &ports, last))
         }
         _ => Some(gen_tree(rng, 3, true)),
     };
